@@ -463,3 +463,178 @@ Proof.
 Qed.
 
 End Reads.
+
+(* ---- (4b) range reads ---- *)
+Section Ranges.
+Variable i : N.
+Variable enc : N -> bytes.
+Variable venc : N -> bytes.
+Hypothesis Hi : id_ok i.
+Hypothesis enc_inj : forall k1 k2, enc k1 = enc k2 -> k1 = k2.
+Hypothesis enc_pf : forall k1 k2, prefix_free_pair (enc k1) (enc k2).
+
+Notation dk := (dkey i enc).
+Notation tk := (tkey i enc).
+Notation Ref := (Refines i enc venc).
+
+Variable c : core.
+Variable s : KV.store.
+Hypothesis R : Ref c s.
+Hypothesis I : CoreInv c.
+Variable v : V.
+
+Let Hs : sorted s := rf_sorted i enc venc c s R.
+Let cx := rcx i v.
+
+Lemma stored_key_lab e : In e s -> of_instance i (fst e) = true ->
+  exists k u m, id_ok u /\ byte_ok m /\ fst e = data_key i (enc k) u 0 m /\ lab e = enc k
+                /\ (m = n_MarkData \/ m = n_MarkTombstone).
+Proof.
+  intros He O. destruct (rf_keys i enc venc c s R e He O) as (k & u & Hu & [E|E]).
+  - exists k, u, n_MarkData. split; [exact Hu|]. split; [unfold byte_ok; reflexivity|].
+    split; [exact E|]. split; [|now left].
+    unfold lab. rewrite E. unfold dkey, construct_data_key. now rewrite tkey_from_data_key.
+  - exists k, u, n_MarkTombstone. split; [exact Hu|]. split; [unfold byte_ok; reflexivity|].
+    split; [exact E|]. split; [|now right].
+    unfold lab. rewrite E. unfold tkey, tombstone_key. now rewrite tkey_from_data_key.
+Qed.
+
+(* the hypotheses of the C05 theorems hold of a refining store *)
+Lemma refines_store_ok : store_ok cx s.
+Proof.
+  constructor.
+  - exact Hs.
+  - intros e He O. destruct (stored_key_lab e He O) as (k & u & m & Hu & Hm & E & _).
+    exists (enc k), u, 0, m. split; [exact E|]. split; [exact Hu|]. split; [apply id0|exact Hm].
+  - intros a b Ha Hb Oa Ob.
+    destruct (stored_key_lab a Ha Oa) as (ka & _ & _ & _ & _ & _ & La & _).
+    destruct (stored_key_lab b Hb Ob) as (kb & _ & _ & _ & _ & _ & Lb & _).
+    rewrite La, Lb. apply enc_pf.
+Qed.
+
+Lemma refines_bound_ok b : (forall k, prefix_free_pair b (enc k)) -> bound_ok cx s b.
+Proof.
+  intros H e He O. destruct (stored_key_lab e He O) as (k & _ & _ & _ & _ & _ & L & _). rewrite L. apply H.
+Qed.
+
+(* the verdict a range scan gets for one abstract key *)
+Definition verdict_of (k : N) (r : rres) : res (option kv) :=
+  match r with
+  | RFound u x => Ok (Some (dk k u, venc x))
+  | RNone => Ok None
+  | RConflict => Err
+  | RFuel => Panic
+  end.
+
+Lemma refine_point_kv k :
+  point_kv (best_of_core c v) cx (enc k) s = verdict_of k (get c k v).
+Proof.
+  unfold point_kv, versioned_key_value.
+  rewrite (entries_kv_keys cx (enc k) s Hs). unfold cx, rcx. cbn [cx_instance].
+  unfold best_of_core, best_core. rewrite (read_over_keys i enc venc Hi enc_inj c s R I k v).
+  pose proof (get_spec c k v I) as SP.
+  destruct (get c k v) as [u x| | |] eqn:G; cbn [erase_r verdict_of]; try reflexivity.
+  destruct SP as (_ & EU & _).
+  assert (Hu : id_ok u) by (apply (rf_versions i enc venc c s R k u); congruence).
+  pose proof (entry_cases i enc venc c s R k u Hu) as EC. rewrite EU in EC. destruct EC as [E1 E2].
+  assert (CH := key_versions_char i enc venc Hi enc_inj c s R k).
+  assert (IN : In (dk k u) (get_key_versions_exact i (enc k) s)).
+  { apply CH. exists u. split; [exact Hu|left]. split; [reflexivity|congruence]. }
+  rewrite (find_unique _ _ (dk k u)); [|exact IN| |].
+  - unfold entries_kv. cbn [cx_instance].
+    rewrite (assoc_filter_sorted
+               (fun k0 => prefixb (unversioned_prefix i (enc k)) k0
+                          && Nat.eqb (length k0) (length (unversioned_prefix i (enc k)) + suffix_size))
+               (dk k u) s Hs).
+    + now rewrite E1.
+    + rewrite (get_key_versions_exact_spec i (enc k) s Hs) in IN. exact IN.
+  - unfold dkey, construct_data_key, key_version. rewrite version_of_data_key by exact Hu.
+    rewrite marker_of_data_key, N.eqb_refl. reflexivity.
+  - intros y Hy Py. apply CH in Hy as (u' & Hu' & Cy).
+    apply andb_true_iff in Py as [P1 P2]. apply N.eqb_eq in P1. apply negb_true_iff in P2.
+    destruct Cy as [[-> _]|[-> _]].
+    + unfold key_version, dkey, construct_data_key in P1. rewrite version_of_data_key in P1 by exact Hu'. now subst.
+    + unfold tkey, tombstone_key in P2. rewrite marker_of_data_key in P2. vm_compute in P2. discriminate.
+Qed.
+
+Lemma collect_core ks :
+  collect (map (fun t => (t, point_kv (best_of_core c v) cx t s)) (map enc ks))
+  = range_of_core enc venc (map (fun k => (k, get c k v)) ks).
+Proof.
+  induction ks as [|k ks IH]; [reflexivity|].
+  cbn [map collect range_of_core]. rewrite refine_point_kv.
+  destruct (get c k v) as [u x| | |]; cbn [verdict_of]; try reflexivity; now rewrite IH.
+Qed.
+
+Lemma decode_list (l : list bytes) : (forall t, In t l -> exists k, t = enc k) -> exists ks, l = map enc ks.
+Proof.
+  induction l as [|t l IH]; intro H; [now exists []|].
+  destruct (H t ltac:(now left)) as [k ->]. destruct IH as [ks ->]; [intros t Ht; apply H; now right|].
+  now exists (k :: ks).
+Qed.
+
+Lemma has_entry_stored k : (exists u, ent_of c k u <> None) <->
+  exists e, In e s /\ of_instance i (fst e) = true /\ lab e = enc k.
+Proof.
+  split.
+  - intros (u & Hne). assert (Hu : id_ok u) by now apply (rf_versions i enc venc c s R k u).
+    pose proof (entry_cases i enc venc c s R k u Hu) as EC.
+    destruct (ent_of c k u) as [[x|]|]; [| |contradiction]; destruct EC as [E1 E2].
+    + exists (dk k u, venc x). split; [now apply kv_get_in|]. split; [apply dkey_instance|].
+      unfold lab, dkey, construct_data_key. cbn [fst]. now rewrite tkey_from_data_key.
+    + exists (tk k u, []). split; [now apply kv_get_in|]. split; [apply tkey_instance|].
+      unfold lab, tkey, tombstone_key. cbn [fst]. now rewrite tkey_from_data_key.
+  - intros (e & He & O & L). destruct (rf_keys i enc venc c s R e He O) as (k' & u & Hu & E).
+    assert (k' = k).
+    { apply enc_inj. rewrite <- L. unfold lab. destruct E as [E|E]; rewrite E;
+        unfold dkey, tkey, construct_data_key, tombstone_key; now rewrite tkey_from_data_key. }
+    subst k'. exists u. pose proof (entry_cases i enc venc c s R k u Hu) as EC.
+    destruct e as [a b]. cbn [fst] in E. pose proof (in_kv_get a b s Hs He) as G.
+    destruct (ent_of c k u) as [[x|]|]; try discriminate. exfalso. destruct EC as [E1 E2].
+    destruct E as [E|E]; rewrite E in G; congruence.
+Qed.
+
+(* (4b) a range read over [lo, hi] of the byte store = the abstract GETs of the keys that have
+   an entry and encode into the interval, in ascending order of their encodings, in the range
+   read's conventions (the first unresolved conflict fails the whole read) *)
+Lemma refine_get_range lo hi :
+  (forall k, prefix_free_pair lo (enc k)) -> (forall k, prefix_free_pair hi (enc k)) ->
+  prefix_free_pair lo hi -> lex_le lo hi ->
+  exists ks,
+    get_range (best_of_core c v) cx lo hi s = range_of_core enc venc (map (fun k => (k, get c k v)) ks)
+    /\ StronglySorted lex_lt (map enc ks)
+    /\ (forall k, In k ks <-> ((exists u, ent_of c k u <> None) /\ lex_le lo (enc k) /\ lex_le (enc k) hi)).
+Proof.
+  intros BLo BHi PF LE.
+  pose proof refines_store_ok as SO.
+  pose proof (refines_bound_ok lo BLo) as BL. pose proof (refines_bound_ok hi BHi) as BH.
+  assert (Hic : id_ok (cx_instance cx)) by exact Hi.
+  destruct (decode_list (range_tkeys cx lo hi s)) as [ks EK].
+  { intros t Ht. destruct (range_tkeys_sound cx Hic lo hi s t SO BL BH Ht) as (_ & _ & NE).
+    destruct (entries_kv cx t s) as [|e l] eqn:EE; [contradiction|].
+    assert (He : In e (entries_kv cx t s)) by (rewrite EE; now left).
+    unfold entries_kv in He. apply filter_In in He as [He P]. apply andb_true_iff in P as [P1 P2].
+    apply Nat.eqb_eq in P2. pose proof (prefix_of_instance _ _ _ P1) as O.
+    destruct (stored_key_lab e He O) as (k & u & m & Hu & Hm & E & _ & _). rewrite E in P1, P2.
+    destruct (exact_entry_is_own i t i (enc k) u 0 m Hi Hi P1 P2) as [_ EQ]. exists k. now symmetry. }
+  exists ks. split; [|split].
+  - rewrite (get_range_points (best_of_core c v) cx Hic lo hi s SO BL BH PF LE), EK. apply collect_core.
+  - rewrite <- EK. apply range_tkeys_ascending; assumption.
+  - intro k. split.
+    + intro Hk. assert (Ht : In (enc k) (range_tkeys cx lo hi s)) by (rewrite EK; now apply in_map).
+      destruct (range_tkeys_sound cx Hic lo hi s (enc k) SO BL BH Ht) as (L1 & L2 & NE).
+      split; [|split; assumption]. apply has_entry_stored.
+      destruct (entries_kv cx (enc k) s) as [|e l] eqn:EE; [contradiction|].
+      assert (He : In e (entries_kv cx (enc k) s)) by (rewrite EE; now left).
+      unfold entries_kv in He. apply filter_In in He as [He P]. apply andb_true_iff in P as [P1 P2].
+      apply Nat.eqb_eq in P2. pose proof (prefix_of_instance _ _ _ P1) as O.
+      exists e. split; [exact He|]. split; [exact O|].
+      destruct (stored_key_lab e He O) as (k' & u & m & Hu & Hm & E & L & _). rewrite E in P1, P2.
+      destruct (exact_entry_is_own i (enc k) i (enc k') u 0 m Hi Hi P1 P2) as [_ EQ]. now rewrite L.
+    + intros (HE & L1 & L2). apply has_entry_stored in HE as (e & He & O & L).
+      pose proof (range_tkeys_complete cx Hic lo hi s e SO BL BH He O) as C.
+      rewrite L in C. specialize (C L1 L2). rewrite EK in C.
+      apply in_map_iff in C as (k' & E & Hk'). apply enc_inj in E. now subst.
+Qed.
+
+End Ranges.
